@@ -98,7 +98,7 @@ class Gen:
         self.tags = set()
         self.w = dict(subquery=0.25, join=0.5, group=0.35, agg=0.15, distinct=0.12, union=0.1, cte=0.15,
                       order=0.5, limit=0.3, derived=0.15, where=0.6, lateral=0.05, rollup=0.15,
-                      corr=0.6, star=0.08, semi=0.1)
+                      corr=0.6, star=0.08, semi=0.1, aliasref=0.15)
         if weights:
             self.w.update(weights)
         self.ctes = {}   # visible CTE name -> [(col,type)]
@@ -506,7 +506,7 @@ class Gen:
                 out.append((name, t))
             # lateral alias reference to an earlier aliased integer item
             ints = [(al, t) for (e, al), (_, t) in zip(s.items, out) if al and t in INTS]
-            if ints and not want_types and rng.random() < 0.15:
+            if ints and not want_types and rng.random() < self.w["aliasref"]:
                 al, t = rng.choice(ints)
                 self.tags.add("lateral_alias_ref")
                 alias = self.fresh("z")
